@@ -39,9 +39,10 @@ type PairSpec struct {
 }
 
 type LoopSpec struct {
-	Props []string `json:"props"`
-	Func  string   `json:"func"`
-	What  string   `json:"what"`
+	Props    []string `json:"props"`
+	Func     string   `json:"func"`
+	What     string   `json:"what"`
+	NoLoopOK bool     `json:"no_loop_ok"` // the function may also handle its one item without any loop
 }
 
 type PrecedeSpec struct {
@@ -590,6 +591,10 @@ func runEmissionLoop(p *Program, c *Collector, ls LoopSpec) {
 		return
 	}
 	loops := naturalLoops(fn)
+	if len(loops) == 0 && ls.NoLoopOK {
+		c.Ob(ls.Props, "E6.emission-loop", "loop:"+ls.Func, Discharged, ls.What+": nothing is iterated, the one item is handled straight", p.FuncPos(fn), true)
+		return
+	}
 	if len(loops) == 0 {
 		c.Ob(ls.Props, "E6.emission-loop", "loop:"+ls.Func, Undecided, ls.What+": no loop found in the function", p.FuncPos(fn), false)
 		return
